@@ -23,7 +23,11 @@ allocation identities: model vs real `is`-sharing), `yaqleval`, `provenance` (ba
 copy, either one parsing the text first: every evaluation judged by the options of the engine the host USED),
 `entry` (sessions of a host-built YaqlInterface around a plain / multi / linked context: calls with positional and
 keyword parameters, function stubs, `on(..)`, item access, the host's own bindings, interleaved statement
-evaluations; `yaql.create_context(data=..)`; full snapshots and history independence), `yaqlized`."""
+evaluations; `yaql.create_context(data=..)`; full snapshots and history independence), `yaqlized`,
+`regpool` (for EVERY registered function a pool of statements - documented examples, generated calls with every lambda
+parameter varied over lambdas of all shapes - evaluated in random order, twice each, against ONE prepared context and compared
+with a context made anew by `yaql.create_context()`: state hidden inside a registered function), `gagg`
+(`queries.GroupAggregator` against Model/GroupAgg.lean)."""
 import ast
 import copy
 import datetime
@@ -989,7 +993,7 @@ def fresh_chain():
     return host_chain(yaql.create_context(), [1, [2, 3]])
 
 
-def regpool_statements(world, rng, plans, tier):
+def regpool_statements(world, rng, plans, tier, steer):
     """{function key: [(text, data factories)]}: documented examples + generated calls.  For a function with lambda
     parameters: a call that succeeds is looked for (on a scratch context - only to steer the generator), then every
     lambda parameter in turn is varied over all LAMBDA_SHAPES with the others kept (so the later lambdas are REACHED: an
@@ -997,8 +1001,6 @@ def regpool_statements(world, rng, plans, tier):
     out = {}
     per_plain = 3 if tier == 'quick' else 6
     tries = 40 if tier == 'quick' else 120
-    eng = regpool_engine(world, True, 'steer')
-    scratch = fresh_chain()
     for key, fd in sorted(world.reg.items()):
         plan = plans.get(key)
         stmts = []
@@ -1033,7 +1035,7 @@ def regpool_statements(world, rng, plans, tier):
                 for _ in range(per_plain):
                     add(make(*draw(), []))
             else:
-                base, found = None, []
+                base, cands = None, []
                 for i in range(tries):
                     shape = draw()
                     lams = [rng.choice(LAMBDA_SHAPES) for _ in range(nlam)]
@@ -1042,12 +1044,12 @@ def regpool_statements(world, rng, plans, tier):
                         continue
                     if i < 3:
                         add(c)
-                    if regpool_eval(world, eng, {}, c[0], materialise(c[1]), scratch.create_child_context())[0] == 'ok':
-                        # (a call on an empty collection succeeds without ever applying a lambda: of the successful
-                        # calls the one on the LARGEST values is varied)
-                        found.append((len(pyrepr(materialise(c[1]))), len(found), shape, lams, c))
-                        if len(found) >= 4:
-                            break
+                    cands.append((shape, lams, c))
+                outs = steer([(c[0], regpool_reprs(c[1])) for _, _, c in cands]) if cands else []
+                # (a call on an empty collection succeeds without ever applying a lambda: of the successful calls the one
+                # on the LARGEST values is varied)
+                found = [(len(pyrepr(materialise(c[1]))), -i, shape, lams, c)
+                         for i, ((shape, lams, c), o) in enumerate(zip(cands, outs)) if o.startswith("('ok'")]
                 if found:
                     _, _, shape, lams, c = max(found, key=lambda f: f[:2])
                     base = (shape, lams)
@@ -1062,16 +1064,6 @@ def regpool_statements(world, rng, plans, tier):
         if stmts:
             out[key] = stmts
     return out
-
-
-def regpool_eval(world, eng, cache, text, data, ctx):
-    st = cache.get(text)
-    if st is None:
-        try:
-            st = cache[text] = eng(text)
-        except Exception as e:      # noqa
-            return ('err', 'parse:' + type(e).__name__)
-    return world.run(st, data, ctx)
 
 
 def regpool_canon(v, depth=0):
@@ -1093,80 +1085,223 @@ def regpool_canon(v, depth=0):
     return ('obj', t.__module__ + '.' + t.__name__, re.sub(r'0x[0-9a-fA-F]+', '0x', repr(v))[:120])
 
 
-def regpool_same(a, b):
-    if a[0] != b[0]:
-        return False
-    if a[0] == 'err':
-        return a[1] == b[1]
+def regpool_outcome(out):
+    """comparable text of ('ok', value) | ('err', class name)"""
+    if out[0] == 'err':
+        return repr(('err', out[1]))
     try:
-        return regpool_canon(a[1]) == regpool_canon(b[1])
-    except Exception:       # noqa - not comparable: no verdict
-        return True
+        return repr(('ok', regpool_canon(out[1])))
+    except Exception as e:      # noqa
+        return repr(('uncomparable', type(e).__name__))
 
 
-_REF_ENGINES = {}
+REGPOOL_OPTIONS = {'yaql.memoryQuota': 4000000, 'yaql.limitIterators': 100}
+_RP_ENGINES = {}
 
 
-def regpool_engine(world, mode, which):
-    """engines of their own factories: `which` = 'ref' (fresh-context evaluations) / 'replay' / 'shared'"""
-    k = (mode, which)
-    if k not in _REF_ENGINES:
-        _REF_ENGINES[k] = yaql.YaqlFactory().create(options=dict(world.engine(conv_in=mode).options))
-    return _REF_ENGINES[k]
+def regpool_engine(mode):
+    if mode not in _RP_ENGINES:
+        _RP_ENGINES[mode] = yaql.YaqlFactory().create(options=dict(REGPOOL_OPTIONS, **{'yaql.convertInputData': mode}))
+    return _RP_ENGINES[mode]
 
 
-def regpool_fresh(world, mode, text, data_mk):
-    """the statement freshly parsed, on a newly built document, on a context made anew with `yaql.create_context()`"""
-    return regpool_eval(world, regpool_engine(world, mode, 'ref'), {}, text, materialise(data_mk), fresh_chain())
+def regpool_call(fn, timeout=2.0):
+    signal.signal(signal.SIGALRM, _alarm)
+    signal.setitimer(signal.ITIMER_REAL, timeout)
+    try:
+        try:
+            return ('ok', fn())
+        finally:
+            signal.setitimer(signal.ITIMER_REAL, 0)
+    except Timeout:
+        return ('err', 'Timeout')
+    except RecursionError:
+        return ('err', 'RecursionError')
+    except Exception as e:      # noqa
+        return ('err', type(e).__name__)
 
 
-def regpool_replay(world, mode, steps, upto=None):
-    """the outcomes of a history on ONE newly prepared context: steps = [(text, data factories, on_child)]"""
-    eng = regpool_engine(world, mode, 'replay')
-    shared = fresh_chain()
-    cache, outs = {}, []
-    for text, data_mk, on_child in steps[:upto]:
-        ctx = shared.create_child_context() if on_child else shared
-        outs.append(regpool_eval(world, eng, cache, text, materialise(data_mk), ctx))
+def regpool_run_steps(mode, steps, contexts=None, cache=None):
+    """the outcomes (texts) of evaluations in order: steps = [[context key, on a child?, text, {name: repr of the value}]];
+    every context key stands for ONE prepared context (`yaql.create_context()` + the host chain), made when first used"""
+    eng = regpool_engine(mode)
+    contexts = {} if contexts is None else contexts
+    cache = {} if cache is None else cache
+    outs = []
+    for key, on_child, text, reprs in steps:
+        if key not in contexts:
+            contexts[key] = fresh_chain()
+        ctx = contexts[key].create_child_context() if on_child else contexts[key]
+        st = cache.get(text)
+        if st is None:
+            try:
+                st = cache[text] = eng(text)
+            except Exception as e:      # noqa
+                outs.append(repr(('err', 'parse:' + type(e).__name__)))
+                continue
+        data = {k: eval(v, dict(PYNS)) for k, v in reprs.items()}      # noqa: S307 - our own reprs
+        outs.append(regpool_outcome(regpool_call(lambda: st.evaluate(data=data, context=ctx))))
     return outs
 
 
-def regpool_confirm(world, mode, steps, i):
-    """step i of the history gave another result than a fresh context: is that a fact about the history (reproducible on a
-    newly prepared context, the statement itself deterministic)?  -> (shrunk steps, got, expected) or None"""
-    text, data_mk, _ = steps[i]
-    f1, f2 = regpool_fresh(world, mode, text, data_mk), regpool_fresh(world, mode, text, data_mk)
-    if not regpool_same(f1, f2) or 'Timeout' in (f1[1], f2[1]):
-        return None                 # not a function of its input (random, now ..): no verdict
-    hist_steps = list(steps[:i + 1])
+def fresh_server_main():
+    """a pristine interpreter: yaql imported, engines made, NOTHING evaluated.  Every request line `{"mode": bool, "jobs":
+    [steps, ..]}` is answered by `[[outcome texts of the job's steps], ..]`, each job run in a FORK of this process made for it:
+    whatever an evaluation leaves behind - in a context, in a registered function, in a module - is gone with the child."""
+    for m in (True, False):
+        regpool_engine(m)
+    out = sys.stdout
+    width = 5                   # children at a time
+    for line in sys.stdin:
+        req = json.loads(line)
+        jobs = req['jobs']
+        answers = [None] * len(jobs)
+        running, nxt = [], 0
+        while nxt < len(jobs) or running:
+            while nxt < len(jobs) and len(running) < width:
+                r, w = os.pipe()
+                pid = os.fork()
+                if pid == 0:
+                    try:
+                        os.close(r)
+                        import random
+                        random.seed()       # (a fork inherits the parent's generator state: every child would draw alike)
+                        os.write(w, json.dumps(regpool_run_steps(req['mode'], jobs[nxt])).encode('utf8'))
+                    finally:
+                        os._exit(0)
+                os.close(w)
+                running.append((nxt, pid, r))
+                nxt += 1
+            i, pid, r = running.pop(0)
+            chunks = []
+            while True:
+                c = os.read(r, 1 << 16)
+                if not c:
+                    break
+                chunks.append(c)
+            os.close(r)
+            os.waitpid(pid, 0)
+            try:
+                answers[i] = json.loads(b''.join(chunks).decode('utf8'))
+            except ValueError:
+                answers[i] = None
+        out.write(json.dumps(answers) + '\n')
+        out.flush()
 
-    def differs(hs):
-        outs = regpool_replay(world, mode, hs)
-        return (not regpool_same(outs[-1], f1)) and 'Timeout' not in (outs[-1][1],)
-    if not (differs(hist_steps) and differs(hist_steps)):
+
+class FreshServer:
+    def __init__(self):
+        import subprocess
+        hdir = os.path.dirname(os.path.dirname(os.path.abspath(__file__)))
+        self.p = subprocess.Popen([sys.executable, '-W', 'ignore', '-c',
+                                   'import sys; sys.path.insert(0, %r); import common; from props import c09; '
+                                   'c09.fresh_server_main()' % hdir],
+                                  stdin=subprocess.PIPE, stdout=subprocess.PIPE, text=True, cwd='/tmp')
+
+    def jobs(self, mode, jobs):
+        self.p.stdin.write(json.dumps({'mode': mode, 'jobs': jobs}) + '\n')
+        self.p.stdin.flush()
+        line = self.p.stdout.readline()
+        if not line:
+            raise RuntimeError('the fresh-process server died')
+        return json.loads(line)
+
+    def fresh(self, mode, text, reprs):
+        """the statement in a process that has evaluated nothing else, on a context made anew"""
+        r = self.jobs(mode, [[['ref', True, text, reprs]]])[0]
+        return r[0] if r else None
+
+    def replay(self, mode, steps):
+        r = self.jobs(mode, [steps])[0]
+        return r[-1] if r else None
+
+    def close(self):
+        try:
+            self.p.stdin.close()
+            self.p.wait(timeout=5)
+        except Exception:       # noqa
+            self.p.kill()
+
+
+def regpool_confirm(server, mode, log, i):
+    """evaluation number i of the log gave another result than a process that evaluated nothing else: is that a fact about
+    the history?  The statement must give the same in two more fresh processes, and the logged history, replayed in a fresh
+    process, must reproduce the OBSERVED result (twice).  -> (shrunk steps, observed, expected) or None"""
+    key, on_child, text, reprs, observed = log[i]
+    f1, f2 = server.fresh(mode, text, reprs), server.fresh(mode, text, reprs)
+    if f1 is None or f1 != f2 or f1 == observed or 'Timeout' in f1:
         return None
-    # greedy: drop earlier evaluations while the last one still differs
-    j = 0
-    budget = 200
-    while j < len(hist_steps) - 1 and budget > 0:
-        cand = hist_steps[:j] + hist_steps[j + 1:]
-        budget -= 1
-        if differs(cand) and differs(cand):
-            hist_steps = cand
+    steps = [st[:4] for st in log[:i + 1]]
+
+    def reproduces(hs):
+        return server.replay(mode, hs) == observed
+    if not (reproduces(steps) and reproduces(steps)):
+        return None
+    # shrink: the longest droppable prefix (bisection), then single evaluations of what is left
+    lo, hi = 0, len(steps) - 1          # steps[lo:] reproduces; find the largest such lo
+    while lo < hi:
+        mid = (lo + hi + 1) // 2
+        if reproduces(steps[mid:]):
+            lo = mid
         else:
-            j += 1
-    got = regpool_replay(world, mode, hist_steps)[-1]
-    return hist_steps, got, f1
+            hi = mid - 1
+    steps = steps[lo:]
+    j, budget = 0, 80
+    chunk = max(1, (len(steps) - 1) // 8)
+    while chunk >= 1 and budget > 0:
+        j = 0
+        while j < len(steps) - 1 and budget > 0:
+            cand = steps[:j] + steps[min(j + chunk, len(steps) - 1):]
+            budget -= 1
+            if len(cand) < len(steps) and reproduces(cand):
+                steps = cand
+            else:
+                j += chunk
+        chunk //= 2
+    if not reproduces(steps):
+        return None
+    return steps, observed, f1
 
 
-def regpool_report(res, world, mode, hs, got, exp):
+def regpool_pretty(text):
+    """a canonical outcome text as something a person reads"""
+    def un(c):
+        if not isinstance(c, tuple) or not c:
+            return c
+        if c[0] in ('list', 'tuple'):
+            return (list if c[0] == 'list' else tuple)(un(x) for x in c[1])
+        if c[0] == 'dict':
+            return {repr(un(k)) if isinstance(un(k), (list, dict, set)) else un(k): un(v) for k, v in c[1]}
+        if c[0] == 'set':
+            return 'set(%s)' % ', '.join(repr(un(x)) for x in c[1])
+        if c[0] == 'float':
+            return struct.unpack('>d', bytes.fromhex(c[1]))[0] if isinstance(c[1], str) else c[1]
+        if c[0] == 'obj':
+            return '<%s>' % c[1]
+        return c[1] if len(c) == 2 else c
+    try:
+        o = eval(text, {})       # noqa: S307 - our own canonical text
+        return 'raises %s' % o[1] if o[0] == 'err' else repr(un(o[1]))[:300]
+    except Exception:           # noqa
+        return text[:300]
+
+
+def regpool_report(res, mode, hs, got, exp):
+    keys = []
+    for st in hs:
+        if st[0] not in keys:
+            keys.append(st[0])
+
     def line(st):
-        return '%s on %s%s' % (st[0], pyrepr(materialise(st[1])), ' [on a child of the context]' if st[2] else '')
+        where = 'context %d' % (keys.index(st[0]) + 1) if len(keys) > 1 else 'the context'
+        return '%s on %s [%s%s]' % (st[2], '{%s}' % ', '.join('%r: %s' % kv for kv in st[3].items()), 'a child of ' if st[1] else '', where)
     res.fail('oracle', 'reuse-differs',
-             'registry pool: against ONE prepared context (yaql.create_context() once, yaql.convertInputData=%s) the evaluations %s '
-             'make the last one give %s; the same statement on an equal document against a context made anew gives %s' % (
-                 mode, ' ; then '.join(line(st) for st in hs), short(got), short(exp)),
-             dict(part='regpool', mode=mode, steps=[[t, {k: pyrepr(mk()) for k, mk in d.items()}, c] for t, d, c in hs]))
+             'registry pool: in ONE process, against %s prepared with yaql.create_context() (yaql.convertInputData=%s), the '
+             'evaluations %s make the last one give %s; the same statement on an equal document, in a process that evaluated '
+             'nothing else, against a context made anew gives %s' % (
+                 'one context' if len(keys) == 1 else '%d contexts' % len(keys), mode, ' ; then '.join(line(st) for st in hs),
+                 regpool_pretty(got), regpool_pretty(exp)),
+             dict(part='regpool', mode=mode, steps=hs))
 
 
 def function_names(st):
@@ -1189,48 +1324,41 @@ def function_names(st):
     return out
 
 
-def regpool_impure(world, res, pools, hist):
-    """names of functions that are not functions of their arguments BY NATURE (now, random ..): repeated evaluations of a
-    statement differ even on contexts made anew each time.  Statements calling them are outside the property's quantifier
-    ("with equal data gives an equal result").  A statement whose repeated evaluations differ on ONE context although
-    contexts made anew agree is a violation, reported here."""
-    eng = regpool_engine(world, True, 'probe')
-    scratch = fresh_chain()
+def regpool_reprs(data_mk):
+    return {k: pyrepr(mk()) for k, mk in data_mk.items()}
+
+
+def regpool_impure(server, pools, hist):
+    """names of functions that are not functions of their arguments BY NATURE (now, random ..): three consecutive
+    evaluations of a statement differ, and so do evaluations in 12 processes that evaluated nothing else (each seeds its
+    random source anew).  Statements calling them are outside the property's quantifier ("with equal data gives an equal
+    result").  (A statement that varies on one context while pristine processes agree stays in the pools: the histories
+    below judge it.)"""
+    eng = regpool_engine(True)
     impure = set()
+    stmts = [(t, regpool_reprs(d)) for key in sorted(pools) for t, d in pools[key]]
+    outs = server.jobs(True, [[['probe', True, t, r] for t, r in stmts for _ in range(3)]])[0] or []
     varying = []
-    for key in sorted(pools):
-        for text, data_mk in pools[key]:
+    for i, (t, r) in enumerate(stmts):
+        o = outs[3 * i:3 * i + 3]
+        if len(set(o)) > 1 and not any('Timeout' in x for x in o):
             try:
-                st = eng(text)
+                varying.append((function_names(eng(t)), t, r))
             except Exception:       # noqa
-                continue
-            outs = [world.run(st, materialise(data_mk), scratch.create_child_context()) for _ in range(3)]
-            if all(regpool_same(outs[0], o) for o in outs[1:]) or any('Timeout' == o[1] for o in outs):
-                continue
-            varying.append((function_names(st), text, data_mk))
-    # the smallest explanation: a varying statement that calls nothing but one function names it; a varying statement
-    # that calls a function already named is explained by it.  "By nature" = contexts made anew disagree as well (20 of
-    # them, so that a two-valued random() is not taken for a function); a statement that varies on ONE context while 20
-    # contexts made anew agree has its evaluations depend on the history of the context: a violation.
-    for names, text, data_mk in sorted(varying, key=lambda v: len(v[0])):
+                pass
+    for names, text, reprs in sorted(varying, key=lambda v: len(v[0])):
         if names & impure:
-            continue
-        fresh = [regpool_fresh(world, True, text, data_mk) for _ in range(20)]
-        if not all(regpool_same(fresh[0], o) for o in fresh[1:]):
+            continue            # explained by a function already named (the smallest explanation first)
+        fresh = [r[0] if r else None for r in server.jobs(True, [[['ref', True, text, reprs]]] * 12)]
+        if len(set(fresh)) > 1:
             impure |= names
-            continue
-        steps = [(text, data_mk, True)] * 3
-        c = regpool_confirm(world, True, steps, 2) or regpool_confirm(world, True, steps, 1)
-        if c is not None:
-            regpool_report(res, world, True, *c)
-            return impure
-        impure |= names                 # not reproducible: no verdict about these functions
     hist['regpool-functions-not-determined-by-their-arguments'] = sorted(impure)
     return impure
 
 
-
 def run_regpool(world, res, rng, tier, hist, plans=None):
+    """every evaluation of this part happens in a FORK of one pristine server process (`FreshServer`): a block's history in
+    one child (one process, one prepared context), every reference in a child of its own; this process only compares"""
     if plans is None:
         plans = {}
         for key, fd in sorted(world.reg.items()):
@@ -1238,68 +1366,62 @@ def run_regpool(world, res, rng, tier, hist, plans=None):
                 plans[key] = Plan(world, key, fd)
             except Exception:       # noqa
                 pass
-    pools = regpool_statements(world, rng, plans, tier)
-    impure = regpool_impure(world, res, pools, hist)
-    if res.failures:
-        return
-    if impure:
-        eng0 = regpool_engine(world, True, 'probe')
+    server = FreshServer()
+    try:
+        pools = regpool_statements(world, rng, plans, tier,
+                                   lambda cands: server.jobs(True, [[['steer', True, t, r] for t, r in cands]])[0] or [])
+        impure = regpool_impure(server, pools, hist)
+        if impure:
+            eng0 = regpool_engine(True)
 
-        def pure(text):
-            try:
-                return not (function_names(eng0(text)) & impure)
-            except Exception:       # noqa
-                return True
-        pools = {k: [(t, d) for t, d in v if pure(t)] for k, v in pools.items()}
-        pools = {k: v for k, v in pools.items() if v}
-    keys = sorted(pools)
-    rng.shuffle(keys)
-    block = 12
-    hist['regpool-functions'] = len(keys)
-    hist['regpool-statements'] = sum(len(v) for v in pools.values())
-    hist['regpool-documented-examples'] = sum(1 for v in pools.values() for t, d in v if not d)
-    hist['regpool-largest-pools'] = sorted(((len(v), k) for k, v in pools.items()), reverse=True)[:5]
-    t0 = time.time()
-    budget = 45 if tier == 'quick' else 400
-    for b in range(0, len(keys), block):
-        if time.time() - t0 > budget:
-            hist['regpool-budget-cut-at-function'] = b
-            break
-        mode = (b // block) % 4 != 3          # mostly with input conversion (the default), a quarter raw
-        eng = regpool_engine(world, mode, 'shared')
-        shared = fresh_chain()              # THE prepared context of this block
-        cache = {}
-        stmts = [(k, t, d) for k in keys[b:b + block] for t, d in pools[k]]
-        # references: the j-th statement of every function of the block on the j-th context made anew (a context per
-        # statement when a difference is to be confirmed, see regpool_confirm)
-        refs = {}
-        ref_eng = regpool_engine(world, mode, 'ref')
-        for j in range(max(len(pools[k]) for k in keys[b:b + block])):
-            rctx = fresh_chain()
-            for k in keys[b:b + block]:
-                if j < len(pools[k]):
-                    t, d = pools[k][j]
-                    refs[(k, t)] = regpool_eval(world, ref_eng, {}, t, materialise(d), rctx.create_child_context())
-        order = stmts * 2
-        rng.shuffle(order)
-        steps = []
-        for k, text, data_mk in order:
-            on_child = rng.random() < 0.3
-            ctx = shared.create_child_context() if on_child else shared
-            out = regpool_eval(world, eng, cache, text, materialise(data_mk), ctx)
-            steps.append((text, data_mk, on_child))
-            ref = refs[(k, text)]
-            res.case(('regpool', k, text, mode), nontrivial=out[0] == 'ok')
-            hist['regpool-' + out[0]] = hist.get('regpool-' + out[0], 0) + 1
-            if not regpool_same(out, ref) and 'Timeout' not in (out[1], ref[1]):
-                c = regpool_confirm(world, mode, steps, len(steps) - 1)
-                if c is None:
-                    hist['regpool-differences-not-confirmed'] = sorted(set(hist.get('regpool-differences-not-confirmed', []) + [text]))[:30]
-                    continue
-                regpool_report(res, world, mode, *c)
-                return
-        res.traces += 1
-    hist['regpool-functions-with-two-or-more-statements'] = sum(1 for v in pools.values() if len(v) >= 2)
+            def pure(text):
+                try:
+                    return not (function_names(eng0(text)) & impure)
+                except Exception:       # noqa
+                    return True
+            pools = {k: [(t, d) for t, d in v if pure(t)] for k, v in pools.items()}
+            pools = {k: v for k, v in pools.items() if v}
+        keys = sorted(pools)
+        rng.shuffle(keys)
+        block = 12
+        hist['regpool-functions'] = len(keys)
+        hist['regpool-statements'] = sum(len(v) for v in pools.values())
+        hist['regpool-documented-examples'] = sum(1 for v in pools.values() for t, d in v if not d)
+        hist['regpool-largest-pools'] = sorted(((len(v), k) for k, v in pools.items()), reverse=True)[:5]
+        hist['regpool-functions-with-two-or-more-statements'] = sum(1 for v in pools.values() if len(v) >= 2)
+        t0 = time.time()
+        budget = 50 if tier == 'quick' else 400
+        for b in range(0, len(keys), block):
+            if time.time() - t0 > budget:
+                hist['regpool-budget-cut-at-function'] = b
+                break
+            mode = (b // block) % 4 != 3          # mostly with input conversion (the default), a quarter raw
+            stmts = [(k, t, regpool_reprs(d)) for k in keys[b:b + block] for t, d in pools[k]]
+            # references: every statement in a process of its own that has evaluated nothing else, on a context made anew
+            refs = server.jobs(mode, [[['ref', True, t, reprs]] for _, t, reprs in stmts])
+            ref = {(k, t): (r[0] if r else None) for (k, t, _), r in zip(stmts, refs)}
+            # the history: ONE process, ONE prepared context, every statement of the block twice, in random order
+            order = stmts * 2
+            rng.shuffle(order)
+            steps = [['the context', rng.random() < 0.3, t, reprs] for _, t, reprs in order]
+            outs = server.jobs(mode, [steps])[0]
+            if outs is None:
+                hist['regpool-blocks-without-an-answer'] = hist.get('regpool-blocks-without-an-answer', 0) + 1
+                continue
+            for i, ((k, text, reprs), out) in enumerate(zip(order, outs)):
+                res.case(('regpool', k, text, mode), nontrivial=out.startswith("('ok'"))
+                hist['regpool-' + out[2:4]] = hist.get('regpool-' + out[2:4], 0) + 1
+                exp = ref[(k, text)]
+                if exp is not None and out != exp and 'Timeout' not in out and 'Timeout' not in exp:
+                    c = regpool_confirm(server, mode, [st + [o] for st, o in zip(steps, outs)], i)
+                    if c is None:
+                        hist['regpool-differences-not-confirmed'] = sorted(set(hist.get('regpool-differences-not-confirmed', []) + [text]))[:30]
+                        continue
+                    regpool_report(res, mode, *c)
+                    return
+            res.traces += 1
+    finally:
+        server.close()
 
 
 # ====================================================================================== groupBy's aggregator object
@@ -2423,13 +2545,16 @@ def replay_case(world, drv, res, case, hist):
         res.case(('replay', case['text']))
         return True
     if part == 'regpool' and 'steps' in case:
-        mode = case['mode']
-        steps = [(t, {k: (lambda v=v: eval(v, dict(PYNS))) for k, v in d.items()}, c) for t, d, c in case['steps']]      # noqa: S307
-        outs = regpool_replay(world, mode, steps)
-        exp = regpool_fresh(world, mode, steps[-1][0], steps[-1][1])
-        res.case(('replay', steps[-1][0]))
-        if not regpool_same(outs[-1], exp):
-            regpool_report(res, world, mode, steps, outs[-1], exp)
+        mode, steps = case['mode'], case['steps']
+        server = FreshServer()
+        try:
+            got = server.replay(mode, steps)
+            exp = server.fresh(mode, steps[-1][2], steps[-1][3])
+        finally:
+            server.close()
+        res.case(('replay', steps[-1][2]))
+        if got != exp:
+            regpool_report(res, mode, steps, got, exp)
         return True
     if part == 'evalstore':
         from props import evalstore
@@ -2488,6 +2613,15 @@ def run(env, res):
     t0 = time.time()
     cases, plans = sweep_cases(world, rng, tier, focus)
     hist['sweep-cases'] = len(cases)
+    # the registry pool comes FIRST: so far this process has evaluated nothing, and everything it evaluates from here on is
+    # logged - a result that differs from the one of a pristine process can then be traced to the evaluations before it
+    t1 = time.time()
+    run_regpool(world, res, common.make_rng(env['seed'], ID + 'regpool'), tier, hist, plans)
+    hist['seconds-regpool'] = round(time.time() - t1, 1)
+    if res.failures:
+        res.extra['histogram'] = hist
+        return
+    t0 = time.time()
     entered = set()
     first_fail = None
     budget = 50 if tier == 'quick' else 400
@@ -2540,8 +2674,7 @@ def run(env, res):
     hist['collection-functions-never-entered'] = sorted(coll - hit)[:40]
     hist['collection-functions-never-reached-by-a-raw-container'] = sorted(coll - raw)[:60]
     hist['seconds-sweep'] = round(time.time() - t0, 1)
-    for part, fn in (('regpool', lambda r: run_regpool(world, res, r, tier, hist, plans)),
-                     ('gagg', lambda r: run_gagg(world, drv, res, r, tier, hist)),
+    for part, fn in (('gagg', lambda r: run_gagg(world, drv, res, r, tier, hist)),
                      ('pool', lambda r: run_pool(world, res, r, tier, hist)),
                      ('ctx', lambda r: run_ctx(world, drv, res, r, tier, hist)),
                      ('conv', lambda r: run_conv(world, drv, res, r, tier, hist)),
@@ -2602,7 +2735,11 @@ LEVEL_TEXT = ('Lean 4 theorems over (1) a model of utils.convert_input_data / co
               'interfaces around the three context classes, create_context(data=..) and yaql.eval with the same snapshots, and '
               'engines derived by engine.copy / per-call options from engines with other conversion options, each evaluation '
               'judged by the options of the engine the host used.')
-LEVEL_NOTE = ('partial: aliasing is modelled with allocation identities, not a heap; the evaluator\'s discipline and locality '
+LEVEL_NOTE = ('(round 5: the one stateful object of the library, groupBy\'s GroupAggregator, is modelled with both lifetimes of '
+              'its state - per call, as in the code: every evaluation of a pool returns what the statement returns alone '
+              '(perCall_pool_independent); one object per registered function: shared_breaks_reuse, and shared_harmless_newStyle '
+              'explains why a suite that uses one style per context cannot see it; that NO registered function hides such state '
+              'is checked dynamically by the registry pool.)  partial: aliasing is modelled with allocation identities, not a heap; the evaluator\'s discipline and locality '
               'are hypotheses of the store-level theorems, discharged for the store-passing evaluator model of the core '
               'fragment (Model/EvalStore.lean: mutable context cells, a child context per function call, lambdas capturing '
               'context IDs; Props/C09Store.lean), which provably refines the C04 reference interpreter '
